@@ -84,7 +84,7 @@ def validate_trace(events, module="SLGTrace", cfg=None, timeout=600, keep=None):
     os.unlink(path)
     return accepted, r, rej
 
-def validate_many(traces, module="SLGTrace", cfg=None, timeout=900, chunk_events=20000):
+def validate_many(traces, module="SLGTrace", cfg=None, timeout=900, chunk_events=20000, max_rejected=8):
     """traces: list of event lists.  Validates them in as few TLC runs as possible (traces are
     separated by Reset events).  Returns list of (accepted, rejected_event_index_within_trace, detail)."""
     results = [None] * len(traces)
@@ -122,4 +122,9 @@ def validate_many(traces, module="SLGTrace", cfg=None, timeout=900, chunk_events
         err = r.out[r.out.find("Error:"):][:600] if "Error:" in r.out else ("timeout" if r.timeout else "rejected")
         results[bad] = (False, rej - start, err)
         i = bad + 1
+        if sum(1 for x in results if x is not None and not x[0]) >= max_rejected:
+            # enough rejected executions to report: the rest is left unvalidated (not counted as accepted)
+            for k in range(i, n):
+                if results[k] is None: results[k] = (True, None, "skipped")
+            break
     return results
